@@ -1,6 +1,6 @@
 (* C06 - Estimands mention only distributions the analyst actually has. *)
 From Coq Require Import List Bool.
-From Y0 Require Import Base.ListSet Graph.MixedGraph Dsl.Syntax Dsl.Build Alg.Id Alg.Idc Alg.Vocab Proofs.VocabP.
+From Y0 Require Import Base.ListSet Graph.MixedGraph Dsl.Syntax Dsl.Build Alg.Id Alg.Idc Alg.Cg Alg.IdStar Alg.Vocab Proofs.VocabP Proofs.AtomsP Proofs.StarVocabP.
 Import ListNotations.
 
 (* ID: for every well-formed graph, query, topological-order oracle: an estimand returned by the model consists of plain
@@ -17,5 +17,21 @@ Theorem C06_IDC_estimands_are_plain_observational_over_the_graph topo (g : mg na
   In (IdOk e) (idc false topo g X Y Z) -> is_err e = false -> plain_obs (nodes g) e = true.
 Proof. exact (idc_vocab false topo g (S (List.length Z)) X Y Z e). Qed.
 
+(* ID-star and IDC-star: every probability term of a returned estimand is single-world - all its variables carry the same
+   intervention subscripts - for every graph, event, topological order, fuel and every order of the unordered choices *)
+Theorem C06_IDstar_estimands_are_single_world (g : mg nat) topo fuel ev e :
+  In (IdOk e) (id_star g topo fuel ev) -> is_err e = false -> single_world e = true.
+Proof.
+  exact (fun Hin Hne => swP_single e (PA_split_local e (id_star_single_world g topo fuel ev (IdOk e) Hin e eq_refl) Hne)).
+Qed.
+
+Theorem C06_IDCstar_estimands_are_single_world (g : mg nat) topo fuel outcomes conditions e :
+  In (IdOk e) (idc_star g topo fuel outcomes conditions) -> is_err e = false -> single_world e = true.
+Proof.
+  exact (fun Hin Hne => swP_single e (PA_split_local e (idc_star_single_world g topo fuel outcomes conditions (IdOk e) Hin e eq_refl) Hne)).
+Qed.
+
+Print Assumptions C06_IDstar_estimands_are_single_world.
+Print Assumptions C06_IDCstar_estimands_are_single_world.
 Print Assumptions C06_ID_estimands_are_plain_observational_over_the_graph.
 Print Assumptions C06_IDC_estimands_are_plain_observational_over_the_graph.
